@@ -105,7 +105,7 @@ def stub_fields(scn, istop, jstop):
 
 def expected_region(scn, call_index, istop, jstop):
     kern = scn["kernels"][scn["calls"][call_index]]
-    first = kern["args"][0]
+    first = gogen.space_arg(kern)
     pt, its = first["pt"], kern["iterates_over"]
     if pt == "go_every":
         return (1, jstop + 1, 1, istop + 1)
@@ -323,7 +323,7 @@ def judge(scn, events, nsites, setup):
                 "site": site, "kernel": kern["name"],
                 "offset": kern["offset"],
                 "iterates_over": kern["iterates_over"],
-                "point_type": kern["args"][0]["pt"],
+                "point_type": gogen.space_arg(kern)["pt"],
                 "expected_region": list(region),
                 "missing": sorted(wset - gset)[:4],
                 "extra": sorted(gset - wset)[:4],
@@ -518,7 +518,7 @@ def run_one(seed, index, tier):
                                 else None])
     if out.get("digest") and (index < 24 or index % 97 == 0):
         out["sample"] = {"kernels": [(k["offset"], k["iterates_over"],
-                                      k["args"][0]["pt"])
+                                      gogen.space_arg(k)["pt"])
                                      for k in scn["kernels"]],
                          "history": [o["t"] for o in ops],
                          "grid": [setup["istop"], setup["jstop"]]}
